@@ -108,7 +108,7 @@ func runMassiveMkdir(c Case) []Diff {
 	defer os.RemoveAll(jail)
 	populate(jail, c.Pre)
 	target := filepath.Join(jail, c.Target)
-	opts := []gtree.Option{gtree.WithTargetDir(target), gtree.WithFileExtensions(c.Exts), gtree.WithMassive(context.Background())}
+	opts := append([]gtree.Option{gtree.WithTargetDir(target), gtree.WithFileExtensions(c.Exts), gtree.WithMassive(context.Background())}, strayOpts(c)...)
 	if c.Dry {
 		opts = append(opts, gtree.WithDryRun())
 	}
